@@ -6,7 +6,7 @@ THEOREMS = [
     "Lou.Contract.fwdRun_inv", "Lou.C04.fwd_lengths", "Lou.C04.fwd_inlen_nonneg",
     "Lou.C04.fwd_valid_out_default", "Lou.C04.fwd_valid_out_dotsIO",
     "Lou.C04.fwd_ret0_iff", "Lou.C04.fwd_ret0_logged", "Lou.C04.inlen_negative_witness",
-    "Lou.C04.idEngine_ok",
+    "Lou.C04.idEngine_ok", "Lou.C04.back_lengths", "Lou.C04.back_ret0_iff",
 ]
 
 CLAIM = dict(
@@ -19,7 +19,7 @@ CLAIM = dict(
           "table. The property text (incl. the completeness clause with capacity 32*inlen+256) is evaluated on every "
           "implementation result as the search oracle."),
     note=("Engines are parameters: completeness (whole input consumed) is checked on real runs of shipped tables, not proved; "
-          "backward lengths are oracle-checked (theorems for the backward composition loop not yet written); invalid "
+          "backward: back_lengths (0<=inlen'<=length up to the first NUL, outlen'<=outlen) for any engine satisfying E1/E3; invalid "
           "arguments (NULL pointers, negative lengths) are outside the model's argument type."),
     technique="Lean 4 proof over a hand-written driver model with engines as parameters + trace-validation correspondence + oracle search",
     design="DESIGN.md §7 C04")
